@@ -10,6 +10,7 @@ import (
 	"os/exec"
 	"strconv"
 	"strings"
+	"syscall"
 	"time"
 )
 
@@ -32,12 +33,16 @@ type Solver struct {
 	Time     time.Duration
 	log      io.Writer
 	timeout  int
+	dead     bool
+	HardTimeouts int
+	lastAssert *T
+	AllErrors []string
 }
 
 func NewSolver(tb *TB, timeoutMs int, logPath string) (*Solver, error) {
 	s := &Solver{tb: tb, timeout: timeoutMs}
 	s.bin = "z3"
-	s.args = []string{"-in", fmt.Sprintf("-t:%d", timeoutMs)}
+	s.args = []string{"-in", fmt.Sprintf("-t:%d", timeoutMs), "-memory:3000"}
 	if logPath != "" {
 		f, err := os.Create(logPath)
 		if err == nil {
@@ -61,6 +66,7 @@ func (s *Solver) start() error {
 		return err
 	}
 	s.cmd.Stderr = os.Stderr
+	s.cmd.SysProcAttr = &syscall.SysProcAttr{Pdeathsig: syscall.SIGKILL}
 	if err := s.cmd.Start(); err != nil {
 		return err
 	}
@@ -95,10 +101,27 @@ func (s *Solver) restart() {
 		s.cmd.Process.Kill()
 		s.cmd.Wait()
 	}
+	s.dead = false
 	s.start()
 }
 
+// BeginPath resets the solver to an empty assertion stack (restarting it if it died).
+func (s *Solver) BeginPath() {
+	if len(s.Errors) > 0 {
+		s.AllErrors = append(s.AllErrors, s.Errors...)
+		s.Errors = nil
+	}
+	if s.dead {
+		s.restart()
+		return
+	}
+	s.PopTo(0)
+}
+
 func (s *Solver) send(line string) {
+	if s.dead {
+		return
+	}
 	if s.log != nil {
 		fmt.Fprintln(s.log, line)
 	}
@@ -179,12 +202,35 @@ func (s *Solver) Assert(t *T) {
 		return
 	}
 	s.emit(t)
+	s.lastAssert = t
 	s.send("(assert " + ref(t) + ")")
 }
 
+// readLine reads one line with a hard deadline (z3's soft -t timeout is not always honoured):
+// past the deadline the process is killed and the query reported as unknown.
 func (s *Solver) readLine() (string, error) {
-	line, err := s.out.ReadString('\n')
-	return strings.TrimSpace(line), err
+	type res struct {
+		line string
+		err  error
+	}
+	ch := make(chan res, 1)
+	out := s.out
+	go func() {
+		line, err := out.ReadString('\n')
+		ch <- res{strings.TrimSpace(line), err}
+	}()
+	select {
+	case r := <-ch:
+		return r.line, r.err
+	case <-time.After(time.Duration(s.timeout)*time.Millisecond + 5*time.Second):
+		if s.cmd != nil && s.cmd.Process != nil {
+			s.cmd.Process.Kill()
+		}
+		<-ch
+		s.dead = true
+		s.HardTimeouts++
+		return "unknown", nil
+	}
 }
 
 // Check runs check-sat and returns "sat", "unsat", "unknown" or "error".
@@ -200,6 +246,7 @@ func (s *Solver) Check() string {
 		if err != nil {
 			s.Errors = append(s.Errors, "solver died: "+err.Error())
 			s.Time += time.Since(t0)
+			s.dead = true
 			return "error"
 		}
 		if line == "" {
@@ -218,6 +265,14 @@ func (s *Solver) Check() string {
 		sawErr = true
 	}
 	s.Time += time.Since(t0)
+	if d := time.Since(t0); d > 500*time.Millisecond && os.Getenv("GSE_SLOW") != "" {
+		n := 120
+		txt := ""
+		if s.lastAssert != nil {
+			txt = Pretty(s.lastAssert, &n)
+		}
+		fmt.Fprintf(os.Stderr, "SLOW %.1fs %s: %s\n", d.Seconds(), res, txt)
+	}
 	if sawErr {
 		return "error"
 	}
@@ -293,6 +348,7 @@ func (s *Solver) Model(vars []*T) map[string]uint64 {
 
 // CheckWith checks satisfiability of the current assertions plus extra, without keeping extra.
 func (s *Solver) CheckWith(extra *T) string {
+	s.emit(extra) // definitions stay in the path scope: they are usually needed again
 	s.Push()
 	s.Assert(extra)
 	r := s.Check()
